@@ -17,6 +17,8 @@
 (*    ExpiryRecheck lazy expiry removes only a record that is still        *)
 (*                  expired (F3)                                           *)
 (*    EntryApi      CAS-store of an absent key under the entry lock (F4)   *)
+(*    FlushLock     flush (immediate: map.retain, delayed: map.alter_all)  *)
+(*                  under all key stripes                                  *)
 (* Property (C03 C04): every complete execution is LINEARIZABLE with       *)
 (* respect to the contract - some order of the commands is accepted by     *)
 (* MemcContract!JudgeAll with the responses the clients got, and explains  *)
@@ -28,7 +30,9 @@ EXTENDS MemcStore
 CONSTANTS Clients,        \* e.g. {1, 2, 3}
           Progs,          \* set of programs: functions Clients -> command (records as in MC_Store!Mk)
           Inits,          \* initial states of the key: subset of {"absent", "present", "expired"}
-          KeyLock, ExpiryRecheck, EntryApi
+          KeyLock, ExpiryRecheck, EntryApi,
+          FlushLock       \* flush takes every key stripe (MemcStore::flush) - without it a flush can fall
+                          \* between the lookup and the store of a read-modify-write command
 
 K == "636b"                                   \* the key ("ck")
 InitRec(i) == CASE i = "present" -> [p |-> TRUE, val |-> "35", flags |-> "9", cas |-> "1", ts |-> 0, ttl |-> 0]
@@ -72,9 +76,11 @@ OkResp(c, cas, n) == IF Cmd(c).q THEN <<>>
                      ELSE <<OkFrame(Cmd(c), cas)>>
 Err(c, st) == <<ErrFrame(Cmd(c), st)>>
 
+FlushSite(c) == IF Cmd(c).ttl > 0 THEN "map.alter_all" ELSE "map.retain"
 (* cmd.start *)
 Start(c) == /\ pc[c] = "cmd.start"
-            /\ Goto(c, IF Mutating(c) /\ KeyLock THEN "memc.lock_key" ELSE IF Cmd(c).op \in {"set"} THEN "store" ELSE IF Cmd(c).op = "delete" THEN "map.remove_if.delete" ELSE "map.get")
+            /\ Goto(c, IF Cmd(c).op = "flush" THEN (IF FlushLock THEN "memc.lock_all" ELSE FlushSite(c))
+                       ELSE IF Mutating(c) /\ KeyLock THEN "memc.lock_key" ELSE IF Cmd(c).op \in {"set"} THEN "store" ELSE IF Cmd(c).op = "delete" THEN "map.remove_if.delete" ELSE "map.get")
             /\ Step(c, "cmd.start") /\ UNCHANGED <<prog, init, rec, ctr, klock, shard, loc, resp>>
 
 (* memc.lock_key *)
@@ -82,6 +88,28 @@ Lock(c) == /\ pc[c] = "memc.lock_key" /\ klock = 0
            /\ klock' = c
            /\ Goto(c, IF Cmd(c).op = "set" THEN "store" ELSE IF Cmd(c).op = "delete" THEN "map.remove_if.delete" ELSE "map.get")
            /\ Step(c, "memc.lock_key") /\ UNCHANGED <<prog, init, rec, ctr, shard, loc, resp>>
+
+(* MemcStore::flush: every stripe (here: the one of K), then the whole map in one access *)
+LockAll(c) == /\ pc[c] = "memc.lock_all" /\ klock = 0
+              /\ klock' = c /\ Goto(c, FlushSite(c))
+              /\ Step(c, "memc.lock_all") /\ UNCHANGED <<prog, init, rec, ctr, shard, loc, resp>>
+(* delayed: every item dies `ttl` seconds from now at the latest; an item whose own deadline is earlier keeps it *)
+AlterAll(c) == /\ pc[c] = "map.alter_all" /\ shard = 0
+               /\ rec' = IF rec.p /\ (rec.ttl = 0 \/ rec.ts + rec.ttl > Now + Cmd(c).ttl)
+                         THEN [rec EXCEPT !.ts = Now, !.ttl = Cmd(c).ttl] ELSE rec
+               /\ Step(c, "map.alter_all")
+               /\ Finish(c, IF Cmd(c).q THEN <<>> ELSE <<OkFrame(Cmd(c), "0")>>)
+               /\ UNCHANGED <<prog, init, ctr, shard, loc>>
+(* immediate: retain(false), the closure accounts for every record it drops *)
+Retain(c) == /\ pc[c] = "map.retain" /\ shard = 0
+             /\ rec' = NoRec
+             /\ Step(c, "map.retain")
+             /\ IF rec.p THEN Goto(c, "acct.flush") /\ UNCHANGED <<resp, klock>>
+                ELSE Finish(c, IF Cmd(c).q THEN <<>> ELSE <<OkFrame(Cmd(c), "0")>>)
+             /\ UNCHANGED <<prog, init, ctr, shard, loc>>
+AcctFlush(c) == /\ pc[c] = "acct.flush" /\ Step(c, "memory_usage.update")
+                /\ Finish(c, IF Cmd(c).q THEN <<>> ELSE <<OkFrame(Cmd(c), "0")>>)
+                /\ UNCHANGED <<prog, init, rec, ctr, shard, loc>>
 
 (* what the lookup of a read-modify-write command (or of a get) leads to *)
 AfterLookup(c, hit, r) ==
@@ -196,6 +224,7 @@ Next == \E c \in Clients :
           \/ Start(c) \/ Lock(c) \/ MapGet(c) \/ Collect(c) \/ AcctCollect(c) \/ LookupMiss(c)
           \/ StoreBegin(c) \/ FetchAdd(c) \/ MapInsert(c) \/ AcctStore(c) \/ MapEntry(c) \/ EntryWrite(c) \/ MapGetMut(c)
           \/ Delete(c) \/ AcctDelete(c)
+          \/ LockAll(c) \/ AlterAll(c) \/ Retain(c) \/ AcctFlush(c)
 AllDone == \A c \in Clients : pc[c] = "done"
 (* C16: with TLC's deadlock check on, a state in which some command cannot continue and     *)
 (* nothing else can move is an error; the finished system stutters                          *)
@@ -223,11 +252,40 @@ Cs0 == LET s0 == InitState({K}, "none", 0, 1048576, FALSE) IN
                           bl |-> 11, dec |-> "frame", panic |-> FALSE,
                           r |-> <<OkFrame([opc |-> 1, opq |-> "1"], "1")>>, present |-> <<>>, bytes |-> 0, usage |-> ""]
             IN  TickAll(JudgeAll({s0}, setup).sts, Now)
+(* a second look after `Later` more seconds: delayed flushes and TTLs have run out by then *)
+Later == 4
+FinalGetLater == [FinalGet EXCEPT !.opq = "901",
+                    !.r = LET g == [opc |-> 0, opq |-> "901"] IN
+                          IF rec.p /\ ~(rec.ttl # 0 /\ rec.ts + rec.ttl <= Now + Later)
+                          THEN <<Frame(g, 0, rec.cas, "00000000", "", rec.val, rec.flags, "")>> ELSE <<ErrFrame(g, 1)>>]
 RECURSIVE Explains(_, _)
 Explains(cands, todo) ==
-    IF todo = {} THEN JudgeAll(cands, FinalGet).tags = {}
+    IF todo = {} THEN LET j == JudgeAll(cands, FinalGet) IN
+                      j.tags = {} /\ JudgeAll(TickAll(j.sts, Now + Later), FinalGetLater).tags = {}
     ELSE \E c \in todo : LET j == JudgeAll(cands, EventFor(c)) IN j.tags = {} /\ Explains(j.sts, todo \ {c})
 Linearizable == AllDone => Explains(Cs0, Clients)
+
+(***************************************************************************)
+(* Equivalence to a serial execution of the SEQUENTIAL MODEL OF THE CODE   *)
+(* (MemcStore!ExecSet): the responses (CAS values aside - they come from a *)
+(* global counter) and the record left behind (value, flags, timestamp,    *)
+(* ttl) are those of the commands run one at a time in some order.  The    *)
+(* contract is permissive where the properties are silent (an item         *)
+(* appended to after a delayed flush may live on, G5), so Linearizable     *)
+(* alone does not show that a flush cannot fall into the middle of an      *)
+(* append; this does (MC_Conc_noflushlock).                                *)
+(***************************************************************************)
+M0 == [InitModel({K}, "none", 0, 1048576) EXCEPT !.now = Now, !.map = [k \in {K} |-> InitRec(init)],
+                                                   !.ctr = IF init = "absent" THEN "1" ELSE "2",
+                                                   !.usage = IF init = "absent" THEN 0 ELSE RecSize(InitRec(init))]
+NoCas(fs) == [i \in 1..Len(fs) |-> [fs[i] EXCEPT !.cas = "0"]]
+SameRec(a, b) == a.p = b.p /\ (a.p => a.val = b.val /\ a.flags = b.flags /\ a.ts = b.ts /\ a.ttl = b.ttl)
+RECURSIVE SerialFrom(_, _)
+SerialFrom(m, todo) ==
+    IF todo = {} THEN SameRec(m.map[K], rec)
+    ELSE \E c \in todo : \E o \in ExecSet(m, [Cmd(c) EXCEPT !.k = K]) :
+            NoCas(o.r) = NoCas(resp[c]) /\ SerialFrom(o.m, todo \ {c})
+SerialEquiv == AllDone => SerialFrom(M0, Clients)
 
 (* emitted for replay: the program, the initial state and the schedule of a complete execution *)
 Termination == <>AllDone
